@@ -196,7 +196,8 @@ func (P *Parser) Error(err error, scanner Scanner) (recovered bool, errorAttrib 
 	}
 
 	action, ok := P.actTab[P.stack.Top()].Actions[P.tokenMap.Type("error")]
-	if !ok {
+	if !ok || !P.actTab[P.stack.Top()].canRecover {
+		// "error" is an ordinary keyword of the gocc grammar, not a recovery symbol
 		return
 	}
 	P.stack.Push(State(action.(Shift)), errorAttrib) // action can only be shift
